@@ -4,7 +4,7 @@ import vlib
 from props.common import TRUSTED_BASE, ASSUMPTIONS
 
 ID = "C19"
-LEAN_MODULES = ["LexVerif.Props.C19", "LexVerif.Props.RoundNE", "LexVerif.Props.TablesParse", "LexVerif.Props.Literals.ParseFloatParse", "LexVerif.Props.Literals.ParseFloatNumber", "LexVerif.Props.Literals.ParseFloatLemire", "LexVerif.Props.Literals.ParseFloatBellerophon", "LexVerif.Props.Literals.ParseFloatSlow", "LexVerif.Props.Literals.ParseFloatBigint", "LexVerif.Props.Literals.ParseFloatShared", "LexVerif.Props.Literals.ParseFloatFloat", "LexVerif.Props.Literals.ParseFloatMask", "LexVerif.Props.Literals.ParseFloatLimits", "LexVerif.Props.Literals.ParseIntegerAlgorithm", "LexVerif.Props.Literals.UtilDigit", "LexVerif.Props.Literals.UtilStep", "LexVerif.Props.Literals.ParseFloatBinary", "LexVerif.Props.Literals.ParseFloatOptions"]
+LEAN_MODULES = ["LexVerif.Props.C19", "LexVerif.Props.RoundNE", "LexVerif.Props.TablesParse", "LexVerif.Props.Literals.ParseFloatParse", "LexVerif.Props.Literals.ParseFloatNumber", "LexVerif.Props.Literals.ParseFloatLemire", "LexVerif.Props.Literals.ParseFloatBellerophon", "LexVerif.Props.Literals.ParseFloatSlow", "LexVerif.Props.Literals.ParseFloatBigint", "LexVerif.Props.Literals.ParseFloatShared", "LexVerif.Props.Literals.ParseFloatFloat", "LexVerif.Props.Literals.ParseFloatMask", "LexVerif.Props.Literals.ParseFloatLimits", "LexVerif.Props.Literals.ParseIntegerAlgorithm", "LexVerif.Props.Literals.UtilDigit", "LexVerif.Props.Literals.UtilStep", "LexVerif.Props.Literals.ParseFloatBinary", "LexVerif.Props.Literals.ParseFloatOptions", "LexVerif.Props.LiteralsModel"]
 GEN = ["parse_tables", "literals"]
 TRUSTED = TRUSTED_BASE + [
     "the <=1 ulp bound of the lossy Eisel-Lemire estimate (decimal, non-compact builds) is NOT proved in Lean; it is measured against the oracle on the worst cases, which are exactly the inputs on which lossy and exact parsing differ. For Bellerophon and the power-of-two path the bound IS proved on the Lean models (Props/C19.lean), the models being tied to the code by component-level correspondence (ops bel/bin in props/C01.py streams)",
